@@ -35,6 +35,9 @@ func DecryptData(key, data []byte, e etype.EType) ([]byte, error) {
 // EncryptMessage encrypts the message provided using the methods specific to the etype provided as defined in RFC 4757.
 // The encrypted data is concatenated with its RC4 header containing integrity checksum and confounder to create an encrypted message.
 func EncryptMessage(key, data []byte, usage uint32, export bool, e etype.EType) ([]byte, error) {
+	if len(key) != e.GetKeyByteSize() {
+		return []byte{}, fmt.Errorf("incorrect keysize: expected: %v actual: %v", e.GetKeyByteSize(), len(key))
+	}
 	confounder := make([]byte, e.GetConfounderByteSize()) // size = 8
 	_, err := rand.Read(confounder)
 	if err != nil {
@@ -60,6 +63,10 @@ func EncryptMessage(key, data []byte, usage uint32, export bool, e etype.EType) 
 func DecryptMessage(key, data []byte, usage uint32, export bool, e etype.EType) ([]byte, error) {
 	if len(data) < e.GetConfounderByteSize()+e.GetHMACBitLength()/8 {
 		return []byte{}, errors.New("ciphertext too short")
+	}
+	// HMAC pads a short key with zero octets, so without this check a key followed by zero octets acts as the key itself.
+	if len(key) != e.GetKeyByteSize() {
+		return []byte{}, fmt.Errorf("incorrect keysize: expected: %v actual: %v", e.GetKeyByteSize(), len(key))
 	}
 	checksum := data[:e.GetHMACBitLength()/8]
 	ct := data[e.GetHMACBitLength()/8:]
